@@ -382,7 +382,7 @@ impl Property for C10 {
         ]
     }
     fn cases(&self, tier: Tier) -> usize {
-        tier.pick(6000, 150_000)
+        tier.pick(12000, 150_000)
     }
     fn strategy(&self, tier: Tier) -> BoxedStrategy<Case> {
         let (maxdim, maxrows) = tier.pick((4usize, 10usize), (6, 16));
